@@ -474,7 +474,10 @@ pub fn cases(thorough: bool) -> Vec<Case> {
             // thinning by a mixing hash of the index (a plain modulus aliases with the
             // innermost loops of the grammar and would drop whole dimensions)
             let h = (*i as u64).wrapping_mul(0x9E37_79B9_7F4A_7C15) >> 33;
-            thorough || (c.u.is_none() && h % 2 == 0) || h % 24 == 0
+            thorough
+                || (c.u.is_none() && h % 2 == 0)
+                || (c.merge == h_sum::Merge::Seq && h % 24 == 0)
+                || h % 96 == 0
         })
         .map(|(_, c)| c)
         .collect::<Vec<_>>()
@@ -482,7 +485,7 @@ pub fn cases(thorough: bool) -> Vec<Case> {
         .flat_map(|c| {
             // the second scenario in a feature of its own as well
             let other = match &c.u {
-                Some((u, h_sum::Placement::SameAfter)) => {
+                Some((u, h_sum::Placement::SameAfter)) if c.merge == h_sum::Merge::Seq => {
                     Some(Case { u: Some((u.clone(), h_sum::Placement::OtherFeature)), ..c.clone() })
                 }
                 _ => None,
@@ -610,7 +613,14 @@ pub fn run(a: &ShardArgs) -> serde_json::Value {
                         "case_index": ci, "opts_index": oi,
                         "opts": {"path": o.path, "deco": format!("{:?}", o.deco), "show_output": o.libtest_show_output,
                                  "report_time": o.libtest_report_time, "verbosity": o.verbosity},
-                        "facts": fx, "attempts": attempts(&src, &stream),
+                        // the reports sit behind `Normalize`: their cases follow the normalised order
+                        "facts": fx, "attempts": attempts(&src, &{
+                            let mut r = crate::h_norm::RefNorm::default();
+                            for e in &stream {
+                                r.handle(e.clone());
+                            }
+                            r.out
+                        }),
                         "basic": out.basic, "libtest": out.libtest, "json": out.json, "junit": out.junit,
                     });
                     if samples.len() < 1 && fx.len() > 4 && o.deco == Decoration::Special {
